@@ -100,3 +100,35 @@ Theorem C11_nlist_exact : forall d per l upper idx, (0 < d)%nat -> 0 <= l -> 0 <
   Permutation (nlist_cell d per l upper idx) (nlist_spec d per l upper idx).
 Proof. exact nlist_exact. Qed.
 Print Assumptions C11_nlist_exact.
+
+(* ---- Hilbert ordering (dimension 3), automata over the tables regenerated from the source (Index/HilbertProofs.v) ---- *)
+From Tbfmm Require Import Gen.HilbertTablesGen Index.HilbertDefs Index.HilbertProofs.
+
+(* the two regenerated 12x8 tables are mutually inverse automata (finite check by the kernel's vm) *)
+Theorem C11_hilbert_tables_inverse :
+  forallb (fun s => forallb (fun x =>
+     let '(y, n1) := tbl hilbert2morton_table s x in let '(x', n2) := tbl morton2hilbert_table s y in (x' =? x) && (n1 =? n2)) (zseq 8)) (zseq 12) = true
+  /\ forallb (fun s => forallb (fun y =>
+     let '(x, n1) := tbl morton2hilbert_table s y in let '(y', n2) := tbl hilbert2morton_table s x in (y' =? y) && (n1 =? n2)) (zseq 8)) (zseq 12) = true
+  /\ table_wf hilbert2morton_table && table_wf morton2hilbert_table = true.
+Proof. exact tables_inverse. Qed.
+Print Assumptions C11_hilbert_tables_inverse.
+
+(* index <-> Morton index round trip for every height and every index; bijection with the grid at the leaf level *)
+Theorem C11_hilbert_roundtrip : forall H i, 0 <= H -> 0 <= i < 8 ^ H -> h2m H (m2h H i) = i /\ m2h H (h2m H i) = i.
+Proof. exact hilbert_roundtrip. Qed.
+Print Assumptions C11_hilbert_roundtrip.
+Theorem C11_hilbert_leaf_bijection : forall H p, 1 <= H -> length p = 3%nat -> Forall (fun x => 0 <= x < 2 ^ (H - 1)) p ->
+  h_unbox H (h_box H p) = p /\ 0 <= h_box H p < 8 ^ (H - 1).
+Proof. exact hilbert_leaf_bijection. Qed.
+Print Assumptions C11_hilbert_leaf_bijection.
+
+(* KNOWN FINDING D3: the parent of a Hilbert index is not the containing cell (the automaton is padded from the tree height, not
+   from the cell's level): 480 of the 512 leaf cells of a height-4 tree *)
+Theorem C11_hilbert_parent_refuted : exists H i, 0 <= i < 8 ^ (H - 1) /\ h_unbox H (h_parent i) <> map (fun x => x / 2) (h_unbox H i).
+Proof. exact hilbert_parent_refuted. Qed.
+Print Assumptions C11_hilbert_parent_refuted.
+Theorem C11_hilbert_parent_refuted_count :
+  length (filter (fun i => negb (list_eqb Z.eqb (h_unbox 4 (h_parent i)) (map (fun x => x / 2) (h_unbox 4 i)))) (zseq 512)) = 480%nat.
+Proof. exact hilbert_parent_refuted_count. Qed.
+Print Assumptions C11_hilbert_parent_refuted_count.
